@@ -3,23 +3,29 @@ From Coq Require Import List Arith Lia Bool NArith.
 From NV Require Import Io.Sched Io.SchedProofs Bgzf.MtReader.
 Import ListNotations.
 
-Definition mark_err (a : app) : app := mk_app (apos a) (bpos a) (bsize a) (got a) true.
-
-(* the single-threaded reader = in-order consumption of the submitted frames, plus the frame-level
-   error (if any) returned from read *)
+(* the single-threaded reader = in-order consumption of the submitted tickets: a frame-level error
+   is consumed like a block error *)
 Lemma st_reader_spec frames : forall a,
-  st_reader a frames =
-  let a' := st_consume app_step rerr a (submitted frames) in
-  if rerr a' then a' else if frame_error frames then mark_err a' else a'.
+  st_reader a frames = st_consume app_step rerr a (submitted frames).
 Proof.
-  induction frames as [|fr rest IH]; intros a; cbn [st_reader submitted frame_error existsb st_consume].
-  - cbn zeta. destruct (rerr a); reflexivity.
-  - destruct (rerr a) eqn:Ea.
-    + cbn zeta. rewrite (st_consume_stopped frame app app_step rerr a _ Ea). rewrite Ea. reflexivity.
-    + destruct (fstat fr) eqn:Es; cbn [st_consume orb].
-      * rewrite Ea. apply IH.
-      * rewrite Ea. rewrite IH. cbn zeta. reflexivity.
-      * cbn zeta. rewrite Ea. reflexivity.
+  induction frames as [|fr rest IH]; intros a; cbn [st_reader submitted st_consume]; [reflexivity|].
+  destruct (rerr a) eqn:Ea.
+  - symmetry. apply (st_consume_stopped frame app app_step rerr a _ Ea).
+  - destruct (fstat fr) eqn:Es; cbn [st_consume]; rewrite Ea.
+    + apply IH.
+    + apply IH.
+    + unfold app_step. rewrite Es. reflexivity.
+Qed.
+
+Lemma frame_error_rerr frames : forall a,
+  frame_error frames = true -> rerr (st_reader a frames) = true.
+Proof.
+  induction frames as [|fr rest IH]; intros a H; cbn [frame_error existsb] in H; [discriminate|].
+  cbn [st_reader]. destruct (rerr a) eqn:Ea; [exact Ea|].
+  destruct (fstat fr) eqn:Es; cbn [orb] in H.
+  - apply IH. exact H.
+  - apply IH. exact H.
+  - reflexivity.
 Qed.
 
 Section ReaderProofs.
@@ -35,35 +41,22 @@ Section ReaderProofs.
     apply pipeline_output_is_submission_order. exact F.
   Qed.
 
-  (* no frame-level error in the file: same blocks, same positions, same error flag as the
-     single-threaded reader *)
+  (* same blocks, same positions, same error flag as the single-threaded reader, for every file:
+     corrupt blocks and frame-level errors included *)
   Theorem reader_equals_st frames sched :
-    frame_error frames = false ->
     r_final (r_run P frames sched) = true ->
     cs (r_run P frames sched) = st_reader app0 frames.
   Proof.
-    intros NF F. rewrite st_reader_spec. cbn zeta. rewrite NF.
-    rewrite <- (reader_final_is_sequential frames sched F). destruct (rerr _); reflexivity.
+    intros F. rewrite st_reader_spec. apply reader_final_is_sequential. exact F.
   Qed.
 
-  (* with a frame-level error (candidate F9): the data and positions still agree; the single-threaded
-     reader returns the error from read, the multithreaded one from finish() *)
-  Theorem reader_frame_error_from_finish frames sched :
+  (* a frame-level error is returned by the read that reaches it, under every schedule *)
+  Theorem reader_frame_error_from_read frames sched :
     frame_error frames = true ->
     r_final (r_run P frames sched) = true ->
-    let a := cs (r_run P frames sched) in
-    let b := st_reader app0 frames in
-    got a = got b /\ apos a = apos b /\ bpos a = bpos b /\ bsize a = bsize b /\
-    rerr b = true /\ (rerr a = false -> snd (robs frames a) = true).
+    rerr (cs (r_run P frames sched)) = true.
   Proof.
-    intros FE F. cbn zeta. rewrite st_reader_spec. cbn zeta. rewrite FE.
-    rewrite <- (reader_final_is_sequential frames sched F).
-    destruct (rerr (cs _)) eqn:E.
-    - split; [reflexivity|]. split; [reflexivity|]. split; [reflexivity|]. split; [reflexivity|].
-      split; [exact E|]. intros H; discriminate.
-    - unfold mark_err. cbn [got apos bpos bsize rerr].
-      split; [reflexivity|]. split; [reflexivity|]. split; [reflexivity|]. split; [reflexivity|].
-      split; [reflexivity|]. intros _. unfold robs. cbn [snd]. rewrite E, FE. reflexivity.
+    intros FE F. rewrite (reader_equals_st frames sched F). apply frame_error_rerr. exact FE.
   Qed.
 
   (* in every reachable state (e.g. when a seek abandons the segment) the application has
@@ -72,7 +65,7 @@ Section ReaderProofs.
     exists taken rest, submitted frames = taken ++ rest /\
       cs (r_run P frames sched) = st_consume app_step rerr app0 taken.
   Proof.
-    destruct (prefix_invariant frame frame app (fun fr => fr) app_step rerr (r_can_submit P) P app0
+    destruct (prefix_invariant frame frame app (fun fr => fr) r_ready app_step rerr (r_can_submit P) P app0
                 (submitted frames) sched) as [rest [H1 H2]].
     exists (cons (r_run P frames sched)), rest. split; [exact H1|]. rewrite map_id in H2. exact H2.
   Qed.
@@ -82,7 +75,7 @@ Section ReaderProofs.
     cs (r_run P frames sched) = st_consume app_step rerr app0 (firstn k (submitted frames)).
   Proof.
     intros L. destruct (reader_prefix frames sched) as [taken [rest [H1 H2]]].
-    destruct (prefix_invariant frame frame app (fun fr => fr) app_step rerr (r_can_submit P) P app0
+    destruct (prefix_invariant frame frame app (fun fr => fr) r_ready app_step rerr (r_can_submit P) P app0
                 (submitted frames) sched) as [rest' [H3 H4]].
     fold (r_run P frames sched) in H3, H4.
     rewrite H3. rewrite <- L. rewrite firstn_app, Nat.sub_diag, firstn_all. cbn [firstn].
@@ -106,11 +99,11 @@ Section ReaderProofs.
   Qed.
 
   Theorem reader_terminates_default frames :
-    r_final (iter (fun fr => fr) app_step rerr (r_can_submit P) P (default_pick rerr (r_can_submit P) P)
+    r_final (iter (fun fr => fr) r_ready app_step rerr (r_can_submit P) P (default_pick rerr (r_can_submit P) P)
                   (5 * length (submitted frames)) (init app0 (submitted frames))) = true.
   Proof.
     assert (C0 : r_can_submit P 0 false = true) by (unfold r_can_submit; apply Nat.ltb_lt; lia).
-    exact (pipeline_terminates_default frame frame app (fun fr => fr) app_step rerr
+    exact (pipeline_terminates_default frame frame app (fun fr => fr) r_ready app_step rerr
              (r_can_submit P) P P_pos C0 app0 (submitted frames)).
   Qed.
 
